@@ -74,6 +74,7 @@ type RevVecIn struct {
 	Method    string   `json:"method"`
 	ServerErr bool     `json:"serverErr"`
 	Iface     string   `json:"iface"`
+	Scheme    string   `json:"scheme"`
 }
 
 func setupRevVec(fx *vfixture, rv *RevVecIn) {
